@@ -107,6 +107,48 @@ def occurrences(root, env):
     return out
 
 
+def own_payload_of(rel, env):
+    """Index of the leaf whose own payload object executing `rel` may return (documented pass-through short-cuts:
+    materialized() of an already materialized payload, to_mapping() of a RowMapping with the same key), else None."""
+    from lsst.daf.relation import Deduplication, LeafRelation, MarkerRelation, UnaryOperationRelation, iteration
+
+    if isinstance(rel, LeafRelation):
+        i = env.leaf_index(rel)
+        return i if env.payloads[i] is not None else None
+    if isinstance(rel, MarkerRelation):
+        return own_payload_of(rel.target, env)
+    if isinstance(rel, UnaryOperationRelation) and isinstance(rel.operation, Deduplication):
+        i = own_payload_of(rel.target, env)
+        return i if i is not None and isinstance(env.payloads[i], iteration.RowMapping) else None
+    return None
+
+
+def leaves_only_below_materializations(root, env):
+    """Leaf indices all of whose paths from the root cross a Materialization that really evaluates (not a pure
+    pass-through of a leaf payload)."""
+    from lsst.daf.relation import BinaryOperationRelation, LeafRelation, MarkerRelation, Materialization, UnaryOperationRelation
+
+    free = set()
+    covered = set()
+
+    def passes_through(rel):
+        return own_payload_of(rel, env) is not None
+
+    def rec(rel, under):
+        if isinstance(rel, LeafRelation):
+            (covered if under else free).add(env.leaf_index(rel))
+        elif isinstance(rel, BinaryOperationRelation):
+            rec(rel.lhs, under)
+            rec(rel.rhs, under)
+        elif isinstance(rel, Materialization):
+            rec(rel.target, under or not passes_through(rel))
+        else:
+            rec(rel.target, under)
+
+    rec(root, False)
+    return covered - free
+
+
 def run_case(case, stats):
     (universe, leaves, prog), iters = case
     expected = ev_list(prog, leaves, check_fd=True)
@@ -159,6 +201,25 @@ def run_case(case, stats):
                         "eager-reconsumed",
                         f"leaf {leaves[i][0]} sits only below eager operations but its counter grew from {after_exec[i]} to {n} during iteration #{k}; {ctx}",
                     )
+        # a second execute() of the same relation: whatever sits only below real materializations is served from their
+        # caches ("never again afterwards")
+        before2 = counters()
+        try:
+            again = [dict(r) for r in root.engine.execute(root)]
+        except Exception as e:
+            raise Violation("execute-raised", f"second execute(): {type(e).__name__}: {e}; {ctx}", exc=e)
+        if again != expected:
+            raise Violation("rows-differ", f"second execute(): expected {show_rows(expected)} got {show_rows(again)}; {ctx}")
+        mat_only = leaves_only_below_materializations(root, env)
+        after2 = counters()
+        for i in mat_only:
+            if i in after2 and after2[i] != before2[i]:
+                raise Violation(
+                    "materialization-recomputed",
+                    f"leaf {leaves[i][0]} sits only below materializations, yet a second execute() iterated it again ({before2[i]} -> {after2[i]}); {ctx}",
+                )
+        if mat_only:
+            stats.c["class:second-execute-over-materialization"] += 1
         if n_ops(prog) >= 2 and any(len(leaves[i][2]) >= 2 for i in occ if leaves[i][4] == "data"):
             stats.mark_nontrivial(codec.digest(case), lambda: describe(case), cls=("lazy" if lazy_only else "+".join(sorted(ks & set(EAGER)))))
     finally:
